@@ -30,7 +30,7 @@ from .core import (callee_path, callee_of, strip_refs, strip_payload, edge_domin
                    show_expr, expr_mentions, TRANSPARENT_CALLS, PAYLOAD_CALLS)
 from .engine import Inconclusive, VERIF
 from . import table as T
-from .dispatch import Dispatcher, VALUE
+from .dispatch import Dispatcher, VALUE, GuardReader, PHF_GET
 
 KEY_CHAIN_OK = set(TRANSPARENT_CALLS) | set(PAYLOAD_CALLS) | {
     "<serde_json::map::Keys<'a> as std::iter::Iterator>::next",
@@ -42,20 +42,31 @@ KEY_CHAIN_OK = set(TRANSPARENT_CALLS) | set(PAYLOAD_CALLS) | {
 }
 
 
-def key_chain(disp):
-    """Walk from the lookup key back to the object; return (calls on the spine, terminal expr)."""
-    e = disp.lookup_key_expr()
+def key_chain(disp, e=None, is_payload=None):
+    """Walk from the lookup key back to the object; return (calls on the spine, terminal expr).
+    `e`: the key expression (default: the flow-insensitive trace of the lookup's argument); `is_payload(expr)`: stop
+    when the object itself is reached (path-local expressions, rules/dispatch.GuardReader)."""
+    if e is None:
+        e = disp.lookup_key_expr()
     calls = []
     for _ in range(200):
         e = strip_refs(e)
+        if is_payload is not None and is_payload(e):
+            return calls, e
         if e[0] == "call" and e[1]:
             calls.append(e[1]["path"])
             if not e[2]:
                 return calls, e
             e = e[2][0]
             continue
+        if e[0] == "payload" and len(e) > 2:
+            e = e[2]
+            continue
         if e[0] == "field" and e[1][0] == "downcast" and e[1][2] in ("Continue", "Some", "Ok"):
             e = e[1][1]
+            continue
+        if e[0] == "agg" and e[1].get("agg") == "Adt" and e[1].get("variant") in ("Continue", "Some", "Ok") and len(e[2]) == 1:
+            e = e[2][0]
             continue
         if e[0] == "field" and e[2] == 0 and e[1][0] != "downcast":
             # (key, value) tuple from Map::iter().next()
@@ -63,6 +74,111 @@ def key_chain(disp):
             continue
         return calls, e
     return calls, e
+
+
+def k2_guards(ctx, facts, disp, cfg):
+    """K2 guard clauses, stated on the paths of the dispatcher (helpers expanded) that end in Ok(Some(operation)):
+    on each of them the value is an Object, the object has exactly one entry, the table lookup hit; the key looked up is
+    the object's first key verbatim, looked up in the table parameter, and the operator returned is the lookup's payload.
+    The older statement (an edge implying the fact dominates the exit block) is a second sufficient condition."""
+    b = disp.body
+    rd = GuardReader(disp)
+    obj_edges = disp.object_edge()
+    len_edges = disp.len_one_edge()
+    some_edges = disp.some_edge()
+    readings = [(p, rd.read(p)) for p in rd.success] if rd.readable else []
+    complete = rd.readable and not rd.truncated_success and bool(readings)
+    ctx.count("dispatcher guards (%s)" % cfg, {"success paths": len(readings), "helpers expanded": len(rd.w.expanded), "object": len(obj_edges), "len==1": len(len_edges), "lookup Some": len(some_edges), "success exits": len(disp.success)})
+
+    def by_edges(edges, name):
+        ok = True
+        for (sbi, ssi, inner) in disp.success:
+            dom = any(edge_dominates(b, u, v, sbi) for u, v in edges)
+            if not dom and name == "single-key":
+                dom = disp.len_interval_at(sbi) == (1, 1)
+            ok = ok and dom
+        return ok and bool(disp.success)
+
+    def fmt(lo, hi):
+        return "%s..%s" % (lo, "∞" if hi == float("inf") else hi)
+    where = b.where(disp.success[0][0], disp.success[0][1]) if disp.success else b.where()
+    for name, edges, holds, msg in (
+        ("object", obj_edges, lambda R: R.object, "a value that is not known to be an object"),
+        ("single-key", len_edges, lambda R: (R.lo, R.hi) == (1, 1), "an object that is not known to have exactly one key"),
+        ("lookup-hit", some_edges, lambda R: R.hit, "a key that was not found in the operator table"),
+    ):
+        clause, key = "K2.guard-" + name, "every Ok(Some) path (%s)" % cfg
+        bad = [(p, R) for p, R in readings if not holds(R)]
+        if complete and not bad:
+            ctx.ok(clause, key, nontrivial=True, sample={"guard": name, "paths": len(readings), "facts": sorted({f_ for _, R in readings for f_ in R.len_facts})[:6] if name == "single-key" else None})
+            continue
+        if by_edges(edges, name):
+            ctx.ok(clause, key, nontrivial=True, sample={"guard": name, "edges": edges})
+            continue
+        unknown = sorted({u for _, R in (bad or readings) for u in R.unknown})
+        if not complete or unknown:
+            ctx.unread(clause, key, "the paths of the dispatcher that recognise an operation are not all read (%s)" % (("questions about the object that are not understood: %s" % unknown[:3]) if unknown else "loops / too many paths"), where=where, fn=b.key)
+            continue
+        detail = "an operation is recognised for " + msg
+        if name == "single-key":
+            ivs = sorted({fmt(R.lo, R.hi) for _, R in bad})
+            detail += ": on %d of %d paths the number of keys is only known to be in %s (facts: %s)" % (len(bad), len(readings), ", ".join(ivs), sorted({f_ for _, R in bad for f_ in R.len_facts})[:6])
+        else:
+            detail += " on %d of %d paths" % (len(bad), len(readings))
+        ctx.fail(clause, key, detail, where=where, fn=b.key)
+
+    # ---- the key, the table, the returned operator: path-local values
+    if not complete:
+        # a dispatcher with loops: the flow-insensitive reading is all there is
+        calls, term = key_chain(disp)
+        bad = [c for c in calls if c not in KEY_CHAIN_OK]
+        first_key = any(c.endswith("Iterator>::next") for c in calls) and disp._is_object_payload(term)
+        if bad or not first_key:
+            ctx.unread("K2.key-verbatim", "lookup key is the object's key verbatim (%s)" % cfg, "the dispatcher's paths are not read and the key's derivation passes %s" % (bad or calls), where=b.where(disp.get_bi), fn=b.key)
+        else:
+            ctx.ok("K2.key-verbatim", "lookup key is the object's key verbatim (%s)" % cfg, nontrivial=True, sample={"chain": calls})
+            ctx.ok("K2.key-source", "lookup key is the first key of the object (%s)" % cfg, nontrivial=True)
+        m = strip_refs(b.trace(disp.get_term["args"][0]))
+        ctx.check(m == ("arg", disp.map_arg), "K2.table-arg", "lookup is performed on the table parameter (%s)" % cfg, "lookup on %s" % show_expr(m), where=b.where(disp.get_bi), fn=b.key)
+        for (sbi, ssi, inner) in disp.success:
+            payload = inner[2][0]
+            fields = payload[2] if payload[0] == "agg" else []
+            got = any(strip_payload(f)[0] == "call" and strip_payload(f)[1] and strip_payload(f)[1]["path"] == "phf::Map::<K, V>::get" for f in fields)
+            ctx.check(got, "K2.returns-hit", "returned operator is the looked-up entry (%s)" % cfg, "the operation returned is not built from the table lookup's result", where=b.where(sbi, ssi), nontrivial=True, fn=b.key)
+        return
+    verb_bad, src_bad, tab_bad, ret_bad, chains = [], [], [], [], set()
+    for p, R in readings:
+        ke, te = rd.lookup_on(p)
+        if ke is None:
+            src_bad.append("no table lookup on the path")
+            continue
+        calls, term = key_chain(disp, ke, rd.is_object_payload)
+        chains.add(tuple(calls))
+        bad = [c for c in calls if c not in KEY_CHAIN_OK and c != "serde_json::Value::as_object"]
+        if bad:
+            verb_bad.append(bad)
+        nexts = [c for c in calls if c.endswith("Iterator>::next") or c == "std::iter::Iterator::next"]
+        if not (len(nexts) == 1 and rd.is_object_payload(term)):
+            src_bad.append("chain %s ending at %s" % (calls, show_expr(term)[:80]))
+        if strip_refs(te) != ("arg", disp.map_arg):
+            tab_bad.append(show_expr(strip_refs(te))[:80])
+        inner = strip_refs(strip_refs(p.result)[2][0])
+        payload = inner[2][0] if inner[2] else None
+        fields = payload[2] if payload and payload[0] == "agg" else []
+        got = False
+        for f_ in fields:
+            x = strip_payload(f_)
+            if x[0] == "call" and x[1] and x[1]["path"] == PHF_GET and strip_refs(x[2][0]) == ("arg", disp.map_arg):
+                got = True
+        if not got:
+            ret_bad.append(show_expr(payload)[:100] if payload else "?")
+    ctx.check(not verb_bad, "K2.key-verbatim", "lookup key is the object's key verbatim (%s)" % cfg,
+              "the key is transformed before the table lookup by %s — names would be recognised by something other than exact match" % (verb_bad[:1]),
+              where=b.where(disp.get_bi), nontrivial=True, fn=b.key, sample={"chains": sorted(chains)[:2]})
+    ctx.check(not src_bad, "K2.key-source", "lookup key is the first key of the object (%s)" % cfg,
+              "the looked-up key does not derive from the first entry of the object's key iterator: %s" % src_bad[:1], where=b.where(disp.get_bi), nontrivial=True, fn=b.key)
+    ctx.check(not tab_bad, "K2.table-arg", "lookup is performed on the table parameter (%s)" % cfg, "lookup on %s" % tab_bad[:1], where=b.where(disp.get_bi), fn=b.key)
+    ctx.check(not ret_bad, "K2.returns-hit", "returned operator is the looked-up entry (%s)" % cfg, "the operation returned is not built from the table lookup's result: %s" % ret_bad[:1], where=where, nontrivial=True, fn=b.key)
 
 
 def run(ctx):
@@ -110,39 +226,7 @@ def run(ctx):
 
         # ---------------- K2
         b = disp.body
-        obj_edges = disp.object_edge()
-        len_edges = disp.len_one_edge()
-        some_edges = disp.some_edge()
-        ctx.count("dispatcher guards (%s)" % cfg, {"object": len(obj_edges), "len==1": len(len_edges), "lookup Some": len(some_edges), "success exits": len(disp.success)})
-        for (sbi, ssi, inner) in disp.success:
-            for name, edges, msg in (
-                ("object", obj_edges, "a value that is not known to be an object"),
-                ("single-key", len_edges, "an object that is not known to have exactly one key"),
-                ("lookup-hit", some_edges, "a key that was not found in the operator table"),
-            ):
-                dom = any(edge_dominates(b, u, v, sbi) for u, v in edges)
-                if not dom and name == "single-key":
-                    dom = disp.len_interval_at(sbi) == (1, 1)
-                ctx.check(dom, "K2.guard-" + name, "Ok(Some) exit bb%d (%s)" % (sbi, cfg),
-                          "an operation is recognised for " + msg + (" (no such guard edge exists in the dispatcher)" if not edges else ""),
-                          where=b.where(sbi, ssi), nontrivial=True, fn=b.key, sample={"guard": name, "edges": edges, "exit": sbi})
-        calls, term = key_chain(disp)
-        bad = [c for c in calls if c not in KEY_CHAIN_OK]
-        ctx.check(not bad, "K2.key-verbatim", "lookup key is the object's key verbatim (%s)" % cfg,
-                  "the key is transformed before the table lookup by %s — names would be recognised by something other than exact match" % bad,
-                  where=b.where(disp.get_bi), nontrivial=True, fn=b.key, sample={"chain": calls})
-        first_key = any(c.endswith("Iterator>::next") for c in calls) and disp._is_object_payload(term)
-        ctx.check(first_key, "K2.key-source", "lookup key is the first key of the object (%s)" % cfg,
-                  "the looked-up key does not derive from the object's key iterator: chain %s ending at %s" % (calls, show_expr(term)), where=b.where(disp.get_bi), nontrivial=True, fn=b.key)
-        # the map argument of the lookup is the table parameter
-        m = strip_refs(b.trace(disp.get_term["args"][0]))
-        ctx.check(m == ("arg", disp.map_arg), "K2.table-arg", "lookup is performed on the table parameter (%s)" % cfg, "lookup on %s" % show_expr(m), where=b.where(disp.get_bi), fn=b.key)
-        # the returned operator is the lookup's payload
-        for (sbi, ssi, inner) in disp.success:
-            payload = inner[2][0]
-            fields = payload[2] if payload[0] == "agg" else []
-            got = any(strip_payload(f)[0] == "call" and strip_payload(f)[1] and strip_payload(f)[1]["path"] == "phf::Map::<K, V>::get" for f in fields)
-            ctx.check(got, "K2.returns-hit", "returned operator is the looked-up entry (bb%d, %s)" % (sbi, cfg), "the operation returned is not built from the table lookup's result", where=b.where(sbi, ssi), nontrivial=True, fn=b.key)
+        k2_guards(ctx, facts, disp, cfg)
 
         for (ob, obi, ot) in disp.other_sites:
             ctx.fail("K2.table-consulted-elsewhere", "lookup|%s" % ob.key.split("::", 1)[1], "%s looks a key up in an operator table on its own: what is an operation, and with how many operands, is decided in a second place that can disagree with the dispatcher" % ob.key.split("::", 1)[1], where=ob.where(obi), fn=ob.key)
@@ -166,13 +250,63 @@ def run(ctx):
         roles = Roles(facts)
         p, results = P.analyse(roles)
         ctx.floor("parser call sites (%s)" % cfg, len(results), 25)
+        # The provenance analysis is context-insensitive across function boundaries: a parse site inside a private
+        # helper of a lazy operator (`member_satisfies(predicate, item, is_rule_text, data)`) sees the join of what all
+        # call sites pass and loses the case split that guards it in the caller.  A site that is dirty there is looked
+        # at again on the view of the program in which the private helpers of the operator units are inlined at their
+        # call sites (rules/inline.py — the same program); the verdicts of that view are the ones reported.
+        if any(v == "dirty" for _sk, v, _h in results) and not getattr(facts, "inlined", None) and not ctx.inline_set:
+            try:
+                from . import inline as _inline
+                from .opfacts import Unit as _Unit
+                cands = set(_inline.candidates(facts.path))
+                helpers = set()
+                for fk, info in roles.op_fns.items():
+                    if info["role"] == "lazy":
+                        helpers |= (_Unit(roles, fk, extended=True).keys & cands)
+                helpers -= set(roles.op_fns)
+                if helpers:
+                    f2 = _inline.load_view(facts.path, sorted(helpers))
+                    roles2 = Roles(f2)
+                    p2, results2 = P.analyse(roles2)
+                    if len(results2) >= 25 and not any(v == "dirty" for _sk, v, _h in results2):
+                        ctx.notes.append("K4 decided on the view of the program with the private helpers of the lazy operators inlined at their call sites (%s): as written, the provenance analysis joins all call sites of a helper" % ", ".join(sorted(h.split("::", 1)[1] for h in helpers)))
+                        facts, roles, results = f2, roles2, results2
+            except Inconclusive:
+                pass
         allowed_units = {roles.entry.key, roles.value_parser.key} | set(roles.parsers) | {lb.key for lb in roles.list_parsers}
         allowed_units |= {fk for fk, info in roles.op_fns.items() if info["role"] == "lazy"}
+        # … and the private helper functions of those units: a function all of whose uses (calls, references as a value)
+        # lie in allowed units or in other such helpers runs only as part of them.  (Where the parse call sits is a
+        # matter of spelling; what is parsed there is decided by K4.literal-inside on the provenance of the argument.)
+        cg, _ = facts.callgraph()
+        users = {}
+        for k_, vs in cg.items():
+            for v_ in vs:
+                users.setdefault(v_, set()).add(k_)
+        table_fns = {fk for fk in roles.op_fns}
+
+        def root_of(k_):
+            while "::{closure#" in k_ and k_ not in allowed_units:
+                k_ = k_.rsplit("::{closure#", 1)[0]
+            return k_
+
+        def runs_inside_allowed(k_, seen=()):
+            k_ = root_of(k_)
+            if k_ in allowed_units:
+                return True
+            it_ = facts.items.get(k_) or {}
+            if k_ in seen or len(seen) > 8 or k_ in table_fns or it_.get("exported") or it_.get("no_mangle"):
+                return False
+            us = {root_of(u) for u in users.get(k_, ())} - {k_}
+            for sub in [kk for kk in cg if kk.startswith(k_ + "::{closure#")]:
+                us -= {sub}
+            return bool(us) and all(runs_inside_allowed(u, seen + (k_,)) for u in us)
         for sk, verdict, how in results:
             unit = sk.body.key
             while "::{closure#" in unit and unit not in allowed_units:
                 unit = unit.rsplit("::{closure#", 1)[0]
-            ctx.check(unit in allowed_units, "K4.who-may-parse", sk.ident(),
+            ctx.check(unit in allowed_units or runs_inside_allowed(unit), "K4.who-may-parse", sk.ident(),
                       "the value parser is invoked from %s, which is neither the entry point, the parser itself nor a lazy operator — something classified as a literal may be evaluated there" % sk.body.key,
                       where=sk.body.where(sk.bi), fn=sk.body.key, nontrivial=True)
             if verdict == "dirty":
